@@ -56,6 +56,7 @@ type TypeSpec struct {
 	DynType   map[string]string
 	Invs      []*Clause
 	Owned     map[string]string // field -> owner lock expression (informational)
+	SubObjects map[string]string // pointer fields to objects owned by this one: field -> lock that protects them
 	AtomicCell map[string]bool   // pointer fields whose pointee is accessed only through sync/atomic
 	Rely      map[string]*SExpr // field -> relation between `old` and `new` values allowed to other goroutines
 }
@@ -110,6 +111,7 @@ type FuncSpec struct {
 	Inlines   []string // callees executed inline in this function's proof (their call events stay visible)
 	Implements string
 	GhostSets [][2]string // ghost assignments performed at function exit: target, expression
+	AutoInv   bool        // discipline-only runs: loops without an invariant are cut with `true`
 }
 
 // Lemma: a quantified fact about opaque spec functions, proved once (with the definitions
@@ -283,7 +285,7 @@ func (sp *Specs) parseFile(repo, file string) error {
 		switch kw {
 		case "type":
 			name := qualify(pkg, rest)
-			curT = &TypeSpec{Name: name, Guarded: map[string]string{}, Atomic: map[string]bool{}, Immutable: map[string]bool{}, DynType: map[string]string{}, Owned: map[string]string{}, AtomicCell: map[string]bool{}, Rely: map[string]*SExpr{}}
+			curT = &TypeSpec{Name: name, Guarded: map[string]string{}, Atomic: map[string]bool{}, Immutable: map[string]bool{}, DynType: map[string]string{}, Owned: map[string]string{}, AtomicCell: map[string]bool{}, Rely: map[string]*SExpr{}, SubObjects: map[string]string{}}
 			sp.Types[name] = curT
 			curF = nil
 		case "func":
@@ -405,6 +407,11 @@ func (sp *Specs) parseFile(repo, file string) error {
 			i := strings.Index(rest, ":")
 			for _, f := range splitList(rest[i+1:]) {
 				curT.Owned[f] = strings.TrimSpace(rest[:i])
+			}
+		case "subobjects":
+			i := strings.Index(rest, ":")
+			for _, f := range splitList(rest[i+1:]) {
+				curT.SubObjects[f] = strings.TrimSpace(rest[:i])
 			}
 		case "atomiccell":
 			for _, f := range splitList(strings.TrimPrefix(rest, ":")) {
